@@ -3,7 +3,6 @@ package main
 import (
 	"bufio"
 	"bytes"
-	"context"
 	"crypto/sha1"
 	"encoding/hex"
 	"encoding/json"
@@ -15,6 +14,8 @@ import (
 	"strconv"
 	"strings"
 	"sync"
+	"sync/atomic"
+	"syscall"
 	"time"
 
 	"flamingo.me/pugtemplate/otto/ast"
@@ -23,18 +24,27 @@ import (
 
 // C15: parser.ParseFile / parser.ParseFunction on arbitrary byte strings.
 //
-// Every parse runs in its own goroutine with recover() and a watchdog.  The tree is written as the
-// canonical S-expression that coq/Js/Parse.v (dump_prog) and gen/c15.py produce as well, and - for
-// "the same answer every time" - as a fingerprint of the WHOLE tree (every field of every node,
-// positions included, read by reflection), so that two answers can be compared also where the
+// Every parse runs in a CHILD process (this binary re-executed as C15child), in a goroutine of its own under
+// recover() and a watchdog.  A parse that does not come back is an observation like any other: the watchdog
+// (c15Guarded) gives up once the child has burnt more processor time than c15CPUBound allows for an input of
+// that size (clean tree: milliseconds; bound: seconds) or once c15WallBound has passed, records class "hang"
+// for THAT input, and the child ends - a goroutine in an endless loop cannot be stopped, only its process can.
+// The runner (C15, the parent) parses nothing itself: it hands out the cases, reads the children's answers
+// line by line, so that it knows which input a child was busy with when it reported a hang, was killed by the
+// Go runtime (class "crash": stack exhaustion, out of memory under the address space limit) or fell silent,
+// starts a new child for the cases behind it, and asks a freshly started process about that input alone
+// before it believes a hang or a crash seen among other inputs.
+//
+// The tree is written as the canonical S-expression that coq/Js/Parse.v (dump_prog) and gen/c15.py produce
+// as well, and - for "the same answer every time" - as a fingerprint of the WHOLE tree (every field of every
+// node, positions included, read by reflection), so that two answers can be compared also where the
 // canonical dump only says (other:...).
 //
-// A plain case (no hist, fresh false) is parsed twice in a row in the runner's process, which all plain
-// cases of a run share.  A case with a history is run in processes of its own (this binary re-executed
-// as C15hist): one process parses the steps of the history in order, once each - the case's own input A
-// occurs among them several times, between other inputs that share sub-strings with it - and a second,
-// freshly started process parses A alone.  Nothing another case did can influence these answers, so a
-// replay of the case is self-contained.
+// A plain case (no hist, fresh false) is parsed twice in a row in a child that it shares with the plain cases
+// before it (batches of c15Chunk).  A case with a history is run in processes of its own: one child parses the
+// steps of the history in order, once each - the case's own input A occurs among them several times, between
+// other inputs that share sub-strings with it - and a second, freshly started child parses A alone.  Nothing
+// another case did can influence these answers, so a replay of the case is self-contained.
 type c15Step struct {
 	Mode   string `json:"mode"`   // file | func
 	Params string `json:"params"` // hex
@@ -45,19 +55,20 @@ type c15Case struct {
 	Mode   string    `json:"mode"`   // file | func
 	Params string    `json:"params"` // hex, parameter list of ParseFunction
 	Src    string    `json:"src"`    // hex
-	Bound  int       `json:"bound"`  // watchdog in milliseconds (0: default)
+	Bound  int       `json:"bound"`  // watchdog in milliseconds, processor time and wall time alike (0: by size)
 	Hist   []c15Step `json:"hist"`   // the inputs parsed, in this order, in one process of its own (empty: A, A)
 	Fresh  bool      `json:"fresh"`  // processes of its own: one for the history, a fresh one for A alone
+	Hurry  bool      `json:"hurry"`  // set by the runner only, see c15Hangs: a quarter of the bounds
 }
 
 type c15StepObs struct {
-	Class string `json:"class"` // ok | err | panic | timeout | crash (the runtime killed the process)
+	Class string `json:"class"` // ok | err | panic | hang | crash (the runtime killed the process)
 	Fp    string `json:"fp"`    // fingerprint of the whole tree (class ok)
 	Ms    int64  `json:"ms"`
 }
 
 type c15Obs struct {
-	Class  string       `json:"class"`  // first parse of A: ok | err | panic | timeout | crash
+	Class  string       `json:"class"`  // first parse of A: ok | err | panic | hang | crash
 	Dump   string       `json:"dump"`   // hex, only for ok
 	Fp     string       `json:"fp"`     // fingerprint of the whole tree of that answer
 	Class2 string       `json:"class2"` // second parse of A
@@ -66,7 +77,25 @@ type c15Obs struct {
 	Panic  string       `json:"panic"`  // diagnostic text, never compared
 	Steps  []c15StepObs `json:"steps"`  // the answers to the history, in order
 	FreshO *c15StepObs  `json:"fresh"`  // the answer of the freshly started process to A
+	Hung   bool         `json:"hung"`   // some parse of this case did not come back: the child ends after this case
+	Retry  string       `json:"retry"`  // diagnostic: what the shared child had said before this input was asked again alone
 }
+
+const (
+	c15Workers = 12 // children at a time
+	c15Chunk   = 40 // plain cases per child
+)
+
+// hangs / crashes seen among other inputs that showed again when the input was parsed alone
+var c15Confirmed int32
+
+// cases of this run recorded with a hang or a crash so far.  From c15Enough on the run has its alarms, each of
+// them under the full bounds; so that a tree on which every twentieth input hangs does not take ten minutes, the
+// children started after that work with a quarter of the bounds (still a hundred times what the unchanged code
+// needs).  A replay or a shrinking step is a run of its own and starts with the full bounds again.
+var c15Hangs int32
+
+const c15Enough = 12
 
 func init() {
 	runners["C15"] = func(in json.RawMessage) (interface{}, error) {
@@ -79,43 +108,94 @@ func init() {
 			return nil, err
 		}
 		out := make([]c15Obs, len(cases))
-		// cases that want processes of their own: a few workers start the children ...
+		var jobs [][]int // one case with processes of its own, or a batch of plain cases that share a child
+		var plain []int
+		nplain := 0
+		for _, c := range cases {
+			if !(c.Fresh || len(c.Hist) > 0) {
+				nplain++
+			}
+		}
+		chunk := c15Chunk // a short list (the candidates of the shrinker) is spread over all workers
+		if nplain < 2*c15Chunk*c15Workers {
+			chunk = 1 + nplain/(2*c15Workers)
+		}
+		for i, c := range cases {
+			if c.Fresh || len(c.Hist) > 0 {
+				jobs = append(jobs, []int{i})
+				continue
+			}
+			plain = append(plain, i)
+			if len(plain) >= chunk || len(c.Src) > 4000 {
+				jobs = append(jobs, plain)
+				plain = nil
+			}
+		}
+		if len(plain) > 0 {
+			jobs = append(jobs, plain)
+		}
 		var wg sync.WaitGroup
-		jobs := make(chan int)
-		for w := 0; w < 4; w++ {
+		ch := make(chan []int)
+		for w := 0; w < c15Workers; w++ {
 			wg.Add(1)
 			go func() {
 				defer wg.Done()
-				for i := range jobs {
-					out[i] = c15Isolated(self, cases[i])
+				for job := range ch {
+					if c := cases[job[0]]; c.Fresh || len(c.Hist) > 0 {
+						out[job[0]] = c15Isolated(self, c)
+						continue
+					}
+					batch := make([]c15Case, len(job))
+					for k, i := range job {
+						batch[k] = cases[i]
+					}
+					for k, o := range c15Batch(self, batch) {
+						out[job[k]] = o
+					}
 				}
 			}()
 		}
-		go func() {
-			for i, c := range cases {
-				if c.Fresh {
-					jobs <- i
-				}
-			}
-			close(jobs)
-		}()
-		// ... while the plain cases run one after the other in this process
-		for i, c := range cases {
-			if !c.Fresh {
-				out[i] = runC15(c)
-			}
+		for _, j := range jobs {
+			ch <- j
 		}
+		close(ch)
 		wg.Wait()
 		return out, nil
 	}
-	runners["C15hist"] = func(in json.RawMessage) (interface{}, error) {
-		var c c15Case
-		if err := json.Unmarshal(in, &c); err != nil {
+	// the child: parses the cases it is given in order and writes one line per case as soon as the case is done;
+	// after a case with a hang it ends (the stuck goroutine would run next to every later parse)
+	runners["C15child"] = func(in json.RawMessage) (interface{}, error) {
+		var cases []c15Case
+		if err := json.Unmarshal(in, &cases); err != nil {
 			return nil, err
 		}
-		return runC15(c), nil
+		// an endless loop that allocates ends as a crash, not as a machine without memory
+		lim := syscall.Rlimit{}
+		if syscall.Getrlimit(syscall.RLIMIT_AS, &lim) == nil && (lim.Cur == ^uint64(0) || lim.Cur > c15AddressSpace) {
+			lim.Cur = c15AddressSpace
+			syscall.Setrlimit(syscall.RLIMIT_AS, &lim)
+		}
+		w := bufio.NewWriter(os.Stdout)
+		n := 0
+		for _, c := range cases {
+			o := runC15(c)
+			line, err := json.Marshal(o)
+			if err != nil {
+				return nil, err
+			}
+			w.Write(line)
+			w.WriteString("\n")
+			w.Flush()
+			n++
+			if o.Hung {
+				break
+			}
+		}
+		return map[string]int{"done": n}, nil
 	}
 }
+
+const c15AddressSpace = 6 << 30
 
 type c15Res struct {
 	class string
@@ -157,26 +237,58 @@ func c15Once(mode, src, params string) (r c15Res) {
 	}
 }
 
-func c15Guarded(mode, src, params string, bound time.Duration) (c15Res, time.Duration) {
+// processor time (user mode) this process has used so far
+func c15CPU() time.Duration {
+	var ru syscall.Rusage
+	if syscall.Getrusage(syscall.RUSAGE_SELF, &ru) != nil {
+		return 0
+	}
+	return time.Duration(ru.Utime.Sec)*time.Second + time.Duration(ru.Utime.Usec)*time.Microsecond
+}
+
+// c15Guarded: one parse in a goroutine of its own.  It counts as a hang when this process - which does nothing
+// else meanwhile - has used more than `cpu` of processor time since the parse began, or when `wall` has passed.
+// Processor time, not the clock, is the sharp bound: a machine that stalls the process for seconds (other jobs,
+// memory pressure) does not make it grow, an endless loop does.
+func c15Guarded(mode, src, params string, cpu, wall time.Duration) (c15Res, time.Duration) {
 	ch := make(chan c15Res, 1)
-	t0 := time.Now()
+	t0, c0 := time.Now(), c15CPU()
 	go func() { ch <- c15Once(mode, src, params) }()
-	select {
-	case r := <-ch:
-		return r, time.Since(t0)
-	case <-time.After(bound):
-		return c15Res{class: "timeout"}, time.Since(t0)
+	wait := 50 * time.Millisecond
+	for {
+		select {
+		case r := <-ch:
+			return r, time.Since(t0)
+		case <-time.After(wait):
+		}
+		used, since := c15CPU()-c0, time.Since(t0)
+		if used > cpu || since > wall {
+			return c15Res{class: "hang", msg: fmt.Sprintf("no answer after %d ms of processor time, %d ms on the clock (%d bytes); ",
+				used.Milliseconds(), since.Milliseconds(), len(src))}, since
+		}
 	}
 }
 
-func c15Bound(c c15Case, n int) time.Duration {
+// Bounds.  The clean tree needs milliseconds for a few kB; the slowest paths known are the quadratic error
+// paths (75 ms for 10^4 bytes of unmatched brackets, 0.5 s on a loaded machine, 32 s for 10^5).  Slowness alone
+// must never alarm: 2 s of processor time for anything up to 1 kB, 2.3 s for 2.5 kB, 7 s for 10^4 bytes, 8 min for 10^5.
+func c15CPUBound(c c15Case, n int) time.Duration {
 	if c.Bound != 0 {
 		return time.Duration(c.Bound) * time.Millisecond
 	}
-	// generous: the error paths of the parser are quadratic (about 0.5 s for 10^4 bytes;
-	// chains of equal labels are cubic: 12 s for 6000 bytes); slowness alone must not alarm
-	x := float64(n) / 1e4
-	return 120*time.Second + time.Duration(120*x*x*float64(time.Second))
+	x := float64(n) / 1e3
+	d := 2*time.Second + time.Duration(0.05*x*x*float64(time.Second))
+	if c.Hurry {
+		d /= 4
+	}
+	return d
+}
+
+func c15WallBound(c c15Case, n int) time.Duration {
+	if c.Bound != 0 {
+		return time.Duration(c.Bound) * time.Millisecond
+	}
+	return 30*time.Second + 4*c15CPUBound(c, n)
 }
 
 // runC15 parses the history of the case (A, A when none is given) in this process, in order, once each.
@@ -190,7 +302,8 @@ func runC15(c c15Case) c15Obs {
 	var first c15Res
 	for _, st := range hist {
 		src, params := unhx(st.Src), unhx(st.Params)
-		r, d := c15Guarded(st.Mode, src, params, c15Bound(c, len(src)))
+		n := len(src) + len(params)
+		r, d := c15Guarded(st.Mode, src, params, c15CPUBound(c, n), c15WallBound(c, n))
 		obs.Steps = append(obs.Steps, c15StepObs{Class: r.class, Fp: r.fp, Ms: d.Milliseconds()})
 		if d.Milliseconds() > obs.Ms {
 			obs.Ms = d.Milliseconds()
@@ -209,12 +322,13 @@ func runC15(c c15Case) c15Obs {
 			}
 			seen++
 		}
-		if r.class == "timeout" {
+		if r.class == "hang" {
 			// the stuck goroutine keeps running; do not start another parse next to it
 			if seen == 0 {
-				obs.Class, obs.Class2 = "timeout", "timeout"
+				obs.Class, obs.Class2 = "hang", "hang"
 			}
 			obs.Same = false
+			obs.Hung = true
 			break
 		}
 	}
@@ -225,57 +339,163 @@ func runC15(c c15Case) c15Obs {
 	return obs
 }
 
-// c15Child runs one case in a process of its own (this binary, runner C15hist).
-func c15Child(self string, c c15Case) c15Obs {
-	c.Fresh = false
-	in, err := json.Marshal(c)
-	if err != nil {
-		panic(err)
+func c15Steps(c c15Case) []c15Step {
+	if len(c.Hist) == 0 {
+		return []c15Step{{c.Mode, c.Params, c.Src}, {c.Mode, c.Params, c.Src}}
 	}
-	n := 0
-	for _, st := range c.Hist {
-		n += len(st.Src) / 2
-	}
-	ctx, cancel := context.WithTimeout(context.Background(), c15Bound(c, n)+time.Minute) // a hung child ends as a crash
-	defer cancel()
-	cmd := exec.CommandContext(ctx, self, "C15hist")
-	cmd.Stdin = bytes.NewReader(in)
-	var stderr bytes.Buffer
-	cmd.Stderr = &stderr
-	out, err := cmd.Output()
-	var obs c15Obs
-	if err == nil {
-		err = json.Unmarshal(out, &obs)
-	}
-	if err != nil {
-		// the Go runtime killed the process (stack exhaustion, ...): nothing a recover() can catch
-		msg := stderr.String()
-		if len(msg) > 600 {
-			msg = msg[:600]
+	return c.Hist
+}
+
+// how long the runner waits for the child's line about this case before it takes the child for dead:
+// the child's own watchdogs report earlier unless the whole process is frozen
+func c15Patience(c c15Case) time.Duration {
+	d := time.Minute
+	for _, st := range c15Steps(c) {
+		d += c15WallBound(c, (len(st.Src)+len(st.Params))/2)
+		if c.Bound == 0 && d > 15*time.Minute {
+			return 15 * time.Minute
 		}
-		obs = c15Obs{Class: "crash", Class2: "crash", Panic: fmt.Sprint(err) + ": " + msg, Steps: []c15StepObs{}}
-		for range c.Hist {
-			obs.Steps = append(obs.Steps, c15StepObs{Class: "crash"})
-		}
+	}
+	return d
+}
+
+func c15Gone(c c15Case, class, why string) c15Obs {
+	obs := c15Obs{Class: class, Class2: class, Panic: why, Steps: []c15StepObs{}, Hung: class == "hang"}
+	for range c15Steps(c) {
+		obs.Steps = append(obs.Steps, c15StepObs{Class: class})
 	}
 	return obs
 }
 
+// c15Spawn starts one child for the cases and collects its lines.  It returns the observations of the cases
+// the child got through; when there are fewer than cases, the child ended on the case behind them: it reported a
+// hang there (that observation is the last one returned), was killed by the runtime or fell silent (an
+// observation of class crash / hang is appended for that case).
+func c15Spawn(self string, cases []c15Case) []c15Obs {
+	hurry := atomic.LoadInt32(&c15Hangs) >= c15Enough
+	for i := range cases {
+		cases[i].Fresh = false
+		cases[i].Hurry = hurry
+	}
+	in, err := json.Marshal(cases)
+	if err != nil {
+		panic(err)
+	}
+	cmd := exec.Command(self, "C15child")
+	cmd.Stdin = bytes.NewReader(in)
+	var stderr bytes.Buffer
+	cmd.Stderr = &stderr
+	pipe, err := cmd.StdoutPipe()
+	if err != nil {
+		panic(err)
+	}
+	if err := cmd.Start(); err != nil {
+		panic(err)
+	}
+	lines := make(chan []byte)
+	go func() {
+		rd := bufio.NewReaderSize(pipe, 1<<16)
+		for {
+			line, err := rd.ReadBytes('\n')
+			if len(line) > 0 && err == nil {
+				lines <- line
+			}
+			if err != nil {
+				close(lines)
+				return
+			}
+		}
+	}()
+	var out []c15Obs
+	silent := false
+	for len(out) < len(cases) && !silent {
+		select {
+		case line, ok := <-lines:
+			if !ok {
+				lines = nil
+				silent = true // end of the child's output before all cases were answered
+				break
+			}
+			var o c15Obs
+			if json.Unmarshal(line, &o) != nil || o.Class == "" {
+				continue // the closing {"done": n} line
+			}
+			out = append(out, o)
+			if o.Hung {
+				silent = true
+			}
+		case <-time.After(c15Patience(cases[len(out)])):
+			cmd.Process.Kill()
+			out = append(out, c15Gone(cases[len(out)], "hang", "the child process fell silent and was killed; "))
+			silent = true
+		}
+	}
+	cmd.Process.Kill()
+	if lines != nil {
+		go func() {
+			for range lines {
+			}
+		}()
+	}
+	werr := cmd.Wait()
+	if len(out) < len(cases) && (len(out) == 0 || !out[len(out)-1].Hung) {
+		// the Go runtime killed the process (stack exhaustion, out of memory, ...): nothing a recover() can catch
+		msg := stderr.String()
+		if len(msg) > 600 {
+			msg = msg[:600]
+		}
+		out = append(out, c15Gone(cases[len(out)], "crash", fmt.Sprint(werr)+": "+msg))
+	}
+	return out
+}
+
+func c15Bad(o c15Obs) bool { return o.Hung || o.Class == "crash" }
+
+// c15Batch: plain cases, in order, in as few shared children as possible.  A hang or a crash ends a child; the
+// input it happened on is then parsed in a freshly started process alone (twice in a row, as always), and THAT
+// observation is the one recorded for it: a hang is a statement about the input, not about what the process had
+// parsed before or about a machine that stood still.  (Once three of them have shown again alone the run has
+// its alarms; the later ones are taken as the shared child reported them.)
+func c15Batch(self string, cases []c15Case) []c15Obs {
+	out := make([]c15Obs, 0, len(cases))
+	for len(out) < len(cases) {
+		got := c15Spawn(self, cases[len(out):])
+		if len(got) == 0 {
+			panic("C15child returned nothing")
+		}
+		last := len(got) - 1
+		if c15Bad(got[last]) && atomic.LoadInt32(&c15Confirmed) < 3 {
+			alone := c15Spawn(self, []c15Case{cases[len(out)+last]})[0]
+			alone.Retry = got[last].Class + ": " + got[last].Panic
+			if c15Bad(alone) {
+				atomic.AddInt32(&c15Confirmed, 1)
+			}
+			got[last] = alone
+		}
+		if c15Bad(got[last]) {
+			atomic.AddInt32(&c15Hangs, 1)
+		}
+		out = append(out, got...)
+	}
+	return out
+}
+
 // c15Isolated: one process for the history of the case, one more - freshly started - that parses A alone.
 func c15Isolated(self string, c c15Case) c15Obs {
-	if len(c.Hist) == 0 {
-		c.Hist = []c15Step{{c.Mode, c.Params, c.Src}, {c.Mode, c.Params, c.Src}}
-	}
-	obs := c15Child(self, c)
+	c.Hist = c15Steps(c)
+	obs := c15Spawn(self, []c15Case{c})[0]
 	alone := c
 	alone.Hist = []c15Step{{c.Mode, c.Params, c.Src}}
-	f := c15Child(self, alone)
+	f := c15Spawn(self, []c15Case{alone})[0]
 	fo := c15StepObs{Class: f.Class, Fp: f.Fp, Ms: f.Ms}
 	obs.FreshO = &fo
 	if f.Class != obs.Class || f.Dump != obs.Dump || f.Fp != obs.Fp {
 		obs.Same = false
 	}
 	obs.Panic += f.Panic
+	if c15Bad(obs) || c15Bad(f) {
+		atomic.AddInt32(&c15Hangs, 1)
+	}
 	return obs
 }
 
